@@ -81,9 +81,14 @@ pub fn instantiate(
         );
     }
 
-    let config = Config {
+    let mut config = Config {
         stages: msg.stages.clone(),
-        num_members: msg.members.iter().map(|m| m.len() as u32).sum(),
+        num_members: msg
+            .members
+            .iter()
+            .take(msg.stages.len())
+            .map(|m| m.len() as u32)
+            .sum(),
         member_limit: msg.member_limit,
         whale_cap: msg.whale_cap,
     };
@@ -106,11 +111,7 @@ pub fn instantiate(
     }
 
     for stage in 0..msg.stages.clone().len() {
-        MEMBER_COUNT.save(
-            deps.storage,
-            stage as u32,
-            &(msg.members[stage].len() as u32),
-        )?;
+        let mut stage_members = msg.members[stage].len() as u32;
         for member in msg.members[stage].iter() {
             let addr = deps.api.addr_validate(&member.address)?;
             if let Some(whale_cap) = config.whale_cap {
@@ -118,9 +119,16 @@ pub fn instantiate(
                     return Err(ContractError::ExceededWhaleCap {});
                 }
             }
+            // a repeated address overwrites its entry: it is one member, not two
+            if WHITELIST_STAGES.has(deps.storage, (stage as u32, addr.clone())) {
+                stage_members -= 1;
+                config.num_members -= 1;
+            }
             WHITELIST_STAGES.save(deps.storage, (stage as u32, addr), &member.mint_count)?;
         }
+        MEMBER_COUNT.save(deps.storage, stage as u32, &stage_members)?;
     }
+    CONFIG.save(deps.storage, &config)?;
 
     Ok(res
         .add_attribute("action", "instantiate")
@@ -286,6 +294,7 @@ pub fn execute_add_stage(
     validate_stages(&env, &config.stages)?;
     let stage_id = config.stages.len().saturating_sub(1) as u32;
 
+    let mut stage_members = 0u32;
     for add in members.clone().into_iter() {
         if config.num_members >= config.member_limit {
             return Err(ContractError::MembersExceeded {
@@ -304,8 +313,9 @@ pub fn execute_add_stage(
         }
         WHITELIST_STAGES.save(deps.storage, (stage_id, addr.clone()), &add.mint_count)?;
         config.num_members += 1;
+        stage_members += 1;
     }
-    MEMBER_COUNT.save(deps.storage, stage_id, &(members.len() as u32))?;
+    MEMBER_COUNT.save(deps.storage, stage_id, &stage_members)?;
 
     CONFIG.save(deps.storage, &config)?;
     Ok(Response::new()
